@@ -23,7 +23,7 @@ class C04(Prop):
             "A C loop adds single-number trees (dense sweep). libFuzzer fz_parse checks the fixed point on parser-made trees. "
             "non-trivial = tree with a non-integer double, an escape-needing byte or depth >= 2; distinct by tree hash")
     ASSUMPTIONS = ["only the C locale exists in this sandbox (decimal point is always '.')"]
-    REQUIRED_CLASSES = ["long_string>=1000", "text_of_several_MB", "non_integer_double", "escape_needed", "depth>=2", "growth_exercised", "from_parser", "top_of_range_double",
+    REQUIRED_CLASSES = ["container>10000_items", "long_string>=1000", "text_of_several_MB", "non_integer_double", "escape_needed", "depth>=2", "growth_exercised", "from_parser", "top_of_range_double",
                         "invalid_utf8", "wide_shallow>limit", "print_history_reused_constant_keys"]
 
     def budget(self, tier):
@@ -45,9 +45,10 @@ class C04(Prop):
             gens.long_string_documents(gens.shaped_documents(leaves_u, keys_u, max_leaves=3)).map(lambda d: {"kind": "tree", "jv": d, "utf8": True}),
             st.tuples(st.sampled_from(["[", "{", "[{"]), leaves_u).map(lambda t: {"kind": "tree", "jv": ["D", t[0], ["limit", 0], t[1]], "utf8": True}),
             # shallow, but more containers in total than the parser's nesting limit
-            st.tuples(st.sampled_from([["O", []], ["A", []], ["O", [[b"k", ["A", []]]]]]), st.sampled_from([999, 1000, 1001, 1200, 2050]),
+            st.tuples(st.sampled_from([["O", []], ["A", []], ["O", [[b"k", ["A", []]]]]]), st.sampled_from([999, 1000, 1001, 1200, 2050, 10000, 10001, 10002, 20000]),
                       st.sampled_from([["A", [["A", [["O", [[b"deep", ["A", [["t"]]]]]]]]]], ["N", 1.5]])).map(
-                lambda t: {"kind": "tree", "jv": ["A", [t[0]] * t[1] + [t[2]]], "utf8": True}),
+                lambda t: {"kind": "tree", "utf8": True,
+                           "jv": ["A", [t[0]] * t[1] + [t[2]]] if t[1] % 2 == 0 or t[1] < 10000 else ["O", [[b"k%d" % i, t[0]] for i in range(t[1])] + [[b"last", t[2]]]]}),
         )
         sweep = st.fixed_dictionaries({"kind": st.just("numbers"),
                                        "values": st.lists(st.one_of(numbers, st.integers(-330, 310).map(pow10),
@@ -130,8 +131,10 @@ class C04(Prop):
                 classes.add("escape_needed")
         if model.depth_of(jv) >= 2:
             classes.add("depth>=2")
-        if jv[0] == "A" and len(jv[1]) >= 999:
+        if jv[0] in "AO" and len(jv[1]) >= 999:
             classes.add("wide_shallow>limit")
+        if jv[0] in "AO" and len(jv[1]) > 10000:
+            classes.add("container>10000_items")
         if case.get("huge"):
             classes.add("text_of_several_MB")
         if not case["utf8"]:
